@@ -107,6 +107,16 @@ def Disc (st : Step) : Prop :=
   | .unregister s _ _ => ∀ e ∈ st.pre.reg, key lower e.svc = key lower s → lower e.svc.type = lower s.type
   | _ => True
 
+/-- further API discipline, needed for the safety half of K2: services are registered / updated with non-zero TTLs
+(`other_ttl`, `host_ttl` > 0), and `unregister` is called on a name that is registered (the real registry raises `KeyError`
+otherwise; the machine would start a goodbye task for nothing) -/
+def Disc2 (st : Step) : Prop :=
+  match st.b with
+  | .register s _ _ => 0 < s.otherTtl ∧ 0 < s.hostTtl
+  | .update s _ _ => 0 < s.otherTtl ∧ 0 < s.hostTtl
+  | .unregister s _ _ => ∃ e ∈ st.pre.reg, key lower e.svc = key lower s
+  | _ => True
+
 /-- … and a name is registered again no earlier than 350 ms (one probing phase) after it was last withdrawn: the `reg` event
 of a service follows all its earlier `unreg` events -/
 def Spaced (E : Link.Trace) (l : List Step) : Prop :=
